@@ -114,6 +114,11 @@ def generate(ctx):
             d.append(x % 4)
             x //= 4
         yield "dna", dict(s="".join("ACGT"[q] for q in reversed(d)) + gens.random_dna(rng, rng.randint(1, 2)), kind="limbs")
+    for _ in range(ctx.pick(6, 40)):
+        # the integer-typed path at widths far beyond the string path's reach: 4^e, 4^e +- 1, 2*4^e for e up to 3000
+        e = rng.randint(1400, 3000)
+        x = rng.choice([4 ** e, 4 ** e + 1, 4 ** e - 1, 2 * 4 ** e, 4 ** e + 4 ** (e - 25)])
+        yield "number_dna_int", dict(x=hex(x), L=e + rng.choice([1, 2, 5]))
     if ctx.shard < ctx.pick(5, 16):
         # widths whose values exceed 640 decimal digits (int<->str trap)
         L = rng.randint(2150, 2400)
@@ -247,6 +252,21 @@ def _number(ctx, case, base):
     ctx.done("number_bits" if base == 2 else "number_dna", case, L >= (20 if base == 2 else 10))
 
 
+def check_number_dna_int(ctx, case):
+    dsw = import_dsw()
+    x, L = int(case["x"], 16), case["L"]
+    r = monitored(dsw.number_to_dna, 400 * L + 5000, x, L)
+    if not _bad(ctx, r, "number_to_dna(int of %d bits, %d)" % (x.bit_length(), L)):
+        if not (isinstance(r.value, str) and len(r.value) == L and _val4(r.value) == x):
+            ctx.fail("number-round-trip", "number_to_dna(int ~4^%d, %d) does not convert back (length %d)" % (x.bit_length() // 2, L, len(r.value)))
+        else:
+            back = monitored(dsw.dna_to_number, 400 * L + 5000, r.value, is_string=False)
+            if not _bad(ctx, back, "dna_to_number(%d nt, is_string=False)" % L) and int(back.value) != x:
+                ctx.fail("number-round-trip", "dna_to_number(number_to_dna(x)) != x for x ~ 4^%d" % (x.bit_length() // 2))
+    ctx.cls("number|integer path beyond 1400 nt")
+    ctx.done("number_dna_int", dict(bits=x.bit_length(), L=L, h=hash(x)), True, sample=dict(x="~4^%d" % (x.bit_length() // 2), L=L))
+
+
 def check_number_bits(ctx, case):
     _number(ctx, case, 2)
 
@@ -290,7 +310,7 @@ def check_repo_tests(ctx, case):
     ctx.done("repo_tests", case, n > 0)
 
 
-CHECKS = {"repo_tests": check_repo_tests, "bits": check_bits, "dna": check_dna, "number_bits": check_number_bits, "number_dna": check_number_dna,
+CHECKS = {"repo_tests": check_repo_tests, "number_dna_int": check_number_dna_int, "bits": check_bits, "dna": check_dna, "number_bits": check_number_bits, "number_dna": check_number_dna,
           "via_library": check_via_library}
 
 
@@ -299,7 +319,7 @@ def floors(agg, tier):
     if agg["monitors"].get("contract-evaluations-inside-repo-tests", 0) < (10 if tier == "quick" else 10):
         out.append("repository tests ran %d contract evaluations" % agg["monitors"].get("contract-evaluations-inside-repo-tests", 0))
     c, m = agg["classes"], agg["monitors"]
-    for name, need in (("bits|with progress output", 300), ("conversion repeated after its result was scrambled", 200), ("bits|limbs", 500), ("dna|limbs", 500),
+    for name, need in (("number|integer path beyond 1400 nt", 50), ("bits|with progress output", 300), ("conversion repeated after its result was scrambled", 200), ("bits|limbs", 500), ("dna|limbs", 500),
                        ("bits|beyond-640-digits", 3), ("dna|beyond-640-digits", 3)):
         if c.get(name, 0) < need:
             out.append("%s observed %d < %d" % (name, c.get(name, 0), need))
